@@ -31,6 +31,9 @@ UNITS = {
 }
 
 UNITS["C02"] = [
+    dict(kind="structural", name="c02_commit_order", check="persist_before_publish", file="crates/klukai-agent/src/agent/util.rs", fn="process_multiple_changes",
+         fns=["process_multiple_changes", "process_fully_buffered_changes"],
+         trusted=["rusqlite: a Transaction dropped without commit() rolls back"]),
     dict(kind="depcheck", name="depcheck_c02"),
     dict(kind="structural", name="c02_from_conn", check="from_conn", file="crates/klukai-types/src/agent.rs", fn="from_conn", impl="^impl BookedVersions$",
          trusted=["insert_partial only raises the head (proved: unit c02_booked); the row loops visit every persisted row (rusqlite)"]),
@@ -184,6 +187,9 @@ UNITS["C05"] = [
 ]
 
 UNITS["C03"] = [
+    dict(kind="structural", name="c03_commit_order", check="persist_before_publish", file="crates/klukai-agent/src/agent/util.rs", fn="process_multiple_changes",
+         fns=["process_multiple_changes", "process_fully_buffered_changes"],
+         trusted=["rusqlite: a Transaction dropped without commit() rolls back"]),
     dict(kind="structural", name="c03_from_conn", check="from_conn", file="crates/klukai-types/src/agent.rs", fn="from_conn", impl="^impl BookedVersions$",
          trusted=["same check as c02_from_conn: after a restart the partial records (received seq ranges, last_seq) are rebuilt from the columns that hold them, so `is_complete` keeps deciding visibility on the true last_seq"]),
     dict(kind="verus", name="c03_send", template="specs/c05_send.vrs",
